@@ -346,6 +346,24 @@ def check(case, acc, tmp):
                     if O.content(R1) != O.content(R2):
                         acc.violation('real-generator:not-reproducible', 'same seed, different results', c)
                         continue
+                    # the seed in the other forms numpy's generator accepts: a numpy integer (the same stream as
+                    # the Python integer), a sequence of integers (twice the same result)
+                    try:
+                        R3 = t.subsample(n, axis=axis, with_replacement=wr, seed=np.int64(seed))
+                        R4 = t.subsample(n, axis=axis, with_replacement=wr, seed=[seed, 7, 11])
+                        R5 = t.subsample(n, axis=axis, with_replacement=wr, seed=[seed, 7, 11])
+                        R6 = t.subsample(min(n, 2), axis=axis, by_id=True, seed=np.int64(seed))
+                        R7 = t.subsample(min(n, 2), axis=axis, by_id=True, seed=seed)
+                    except Exception as e:
+                        acc.violation('real-generator:seed-form-raised:' + type(e).__name__, 'subsample with a numpy '
+                                      'integer / sequence seed raised %s: %s' % (type(e).__name__, e), c)
+                        continue
+                    if O.content(R3) != O.content(R1) or O.content(R4) != O.content(R5) or O.content(R6) != O.content(R7):
+                        acc.violation('real-generator:not-reproducible:seed-form', 'seed %d given as numpy.int64 / as a '
+                                      'sequence does not reproduce: int64 == int: %r, sequence twice: %r, by_id int64 == '
+                                      'int: %r' % (seed, O.content(R3) == O.content(R1), O.content(R4) == O.content(R5),
+                                                   O.content(R6) == O.content(R7)), c)
+                        continue
                     if O.content(t) != src_content:
                         acc.violation('input-modified', 'subsample modified its input table', c)
                     A = np.asarray(R1.matrix_data.toarray())
